@@ -60,6 +60,8 @@ const (
 	// starts with endstream (also followed by a line endobj) / with endobj.
 	// On a non-seekable sink such a stream gets an indirect /Length; as long as
 	// that can be resolved the body is unambiguous.
+	// BodyBigBinary: 1500..2500 random bytes (no filter makes them shorter)
+	BodyBigBinary BodyKind = "bigbinary"
 	// BodyBigCR: > 1024 bytes ending in a bare CR
 	BodyBigCR           BodyKind = "bigcr"
 	BodyBigEOLEndstream BodyKind = "bigeolendstream"
@@ -68,7 +70,7 @@ const (
 
 // AllBodies lists every body kind.
 var AllBodies = []BodyKind{BodyPlain, BodyBinary, BodyEOL, BodyCR, BodyEndstream, BodyEOLEndstream, BodyEndobj, BodyMidHeader,
-	BodyTrailerLine, BodyXrefLine, BodyStartxrefLine, BodyEOFLine, BodyEmpty, BodyBig, BodyBigCR, BodyBigEOLEndstream, BodyBigEOLEndobj}
+	BodyTrailerLine, BodyXrefLine, BodyStartxrefLine, BodyEOFLine, BodyEmpty, BodyBig, BodyBigBinary, BodyBigCR, BodyBigEOLEndstream, BodyBigEOLEndobj}
 
 // MarkerBodies are the body kinds with a line-initial trailer keyword.
 var MarkerBodies = []BodyKind{BodyTrailerLine, BodyXrefLine, BodyStartxrefLine, BodyEOFLine}
@@ -105,9 +107,11 @@ type DocOptions struct {
 	// Writer.Get (plain, stream and compressed ones), and every second stream
 	// names its filter through an indirect /Filter object, which OpenStream
 	// resolves through the Writer.
-	ReadBack    bool
-	CycleBodies bool // the k-th stream gets Bodies[k mod len(Bodies)] instead of a random element
-	Info        bool // fill in the Info dictionary
+	ReadBack bool
+	// AlwaysFilter: every stream uses at least one filter of the pool
+	AlwaysFilter bool
+	CycleBodies  bool // the k-th stream gets Bodies[k mod len(Bodies)] instead of a random element
+	Info         bool // fill in the Info dictionary
 }
 
 // UserPassword is the password of encrypted generated documents.
@@ -352,6 +356,9 @@ func NewDocPlan(seed int64, opt DocOptions) (*DocPlan, error) {
 			} else if len(opt.Filters) > 0 && !afterMarker {
 				for j := rng.Intn(3); j > 0; j-- {
 					po.filters = append(po.filters, opt.Filters[rng.Intn(len(opt.Filters))])
+				}
+				if opt.AlwaysFilter && len(po.filters) == 0 {
+					po.filters = append(po.filters, opt.Filters[nstreams%len(opt.Filters)])
 				}
 			}
 		}
@@ -778,6 +785,9 @@ func (g *valGen) body(k BodyKind, max int) []byte {
 		}
 		b = append(b, text(600+g.rng.Intn(300))...)
 		b[len(b)-1] = 'Q'
+	case BodyBigBinary:
+		b = make([]byte, 1500+g.rng.Intn(1000))
+		g.rng.Read(b)
 	case BodyBigCR:
 		b = append(text(1100+g.rng.Intn(600)), '\r')
 	case BodyBig:
